@@ -53,26 +53,49 @@ class Case:
 # ---------------------------------------------------------------------------
 # registries of the library that are looked up with (possibly) symbolic keys
 
+def _registry_shaped(d):
+    """A dict that looks like one of the library's decode tables: non-empty, every key an int or a tuple of
+    ints (values: classes, lists of classes, or again such dicts)."""
+    if type(d) is not dict or not d:
+        return False
+    for k in d:
+        if isinstance(k, bool):
+            return False
+        if isinstance(k, int) or k is None:
+            continue
+        if isinstance(k, tuple) and k and all(isinstance(x, int) and not isinstance(x, bool) for x in k):
+            continue
+        return False
+    return True
+
+
+def _to_symdict(d):
+    """SymDict copy of a registry, nested registries included."""
+    return shims.SymDict({k: (_to_symdict(v) if _registry_shaped(v) else v) for k, v in d.items()})
+
+
 def registry_sites():
-    import dali.gear.general as gg
-    import dali.device.general as dg
-    sites = [
-        (gg._StandardCommand, "_opcodes"),
-        (gg._SpecialCommand, "_opcodes"),
-        (dg._StandardDeviceCommand, "_opcodes"),
-        (dg._StandardInstanceCommand, "_opcodes"),
-        (dg._Event, "_instance_types"),
-    ]
-    out = []
-    for cls, attr in sites:
-        if isinstance(cls.__dict__.get(attr, getattr(cls, attr, None)), dict):
-            out.append((cls, attr))
-    try:
-        import dali.device.pushbutton as pb
-        if isinstance(getattr(pb._PushbuttonEvent, "_event_classes", None), dict):
-            out.append((pb._PushbuttonEvent, "_event_classes"))
-    except Exception:
-        pass
+    """(owner class, attribute name) of every class-level table of the command / event / address classes that
+    is keyed by ints or tuples of ints - the registries filled at import by the metaclasses, whatever they are
+    called and however they are nested.  They are looked up with symbolic keys (opcodes, device types,
+    instance types, event codes) and are therefore wrapped in SymDict for the symbolic run."""
+    import dali.command as C
+    import dali.address as A
+    out, seen = [], set()
+
+    def walk(cls):
+        if cls in seen:
+            return
+        seen.add(cls)
+        for name, val in list(vars(cls).items()):
+            if name.startswith("__"):
+                continue
+            if _registry_shaped(val) or isinstance(val, shims.SymDict):
+                out.append((cls, name))
+        for sub in cls.__subclasses__():
+            walk(sub)
+    for root in (C.Command, C.Response, A.Address, A.Instance):
+        walk(root)
     return out
 
 
@@ -87,7 +110,7 @@ def symbolic_mode(case):
             for cls, attr in registry_sites():
                 cur = getattr(cls, attr)
                 if not isinstance(cur, shims.SymDict):
-                    inst.set(cls, attr, shims.SymDict(cur))
+                    inst.set(cls, attr, _to_symdict(cur))
         if case.install is not None:
             case.install(inst)
         guard.scan()
